@@ -13,6 +13,7 @@ import (
 	"fmt"
 	"io"
 	"regexp"
+	"strings"
 	"sync"
 
 	pipeline "github.com/buildkite/go-pipeline"
@@ -147,6 +148,14 @@ func randPenv(r *core.Rand, c *pipeline.CommandStep) map[string]string {
 	for k := range c.Env {
 		if r.Intn(2) == 0 {
 			names = append(names, k) // overlap with the step's own env (shadowed)
+		}
+		if r.Intn(3) == 0 {
+			// the same name in another case: another variable (env names are case-sensitive here), not shadowed
+			if v := strings.ToLower(k); v != k {
+				names = append(names, v)
+			} else if v := strings.ToUpper(k); v != k {
+				names = append(names, v)
+			}
 		}
 	}
 	for i := r.Intn(5); i > 0; i-- {
